@@ -6,6 +6,7 @@
    Model/Connection.v + ConnProps.v: the connect delay inside the reconnect sequence. *)
 From FMP Require Import Base.Bytes Base.Lts Model.Timer Model.TimerConc Model.Connection Model.ConnProps Model.ConnCfg Model.TimerCfg
      Proofs.TimerProofs Proofs.TimerConcProofs Proofs.ConnProofs Proofs.ConnCfgProofs.
+From FMP Require Import Model.Paths Proofs.PathProofs.
 Open Scope Z_scope.
 
 (* ---------- the delay chosen ---------- *)
@@ -76,6 +77,10 @@ Proof. exact conn_firenow_lost_refuted. Qed.
 Theorem C16_generated_ok : timerfacts_now = expected_timerfacts /\ ccfg_now = expected_ccfg /\ cc_firenow_sticky expected_ccfg = true.
 Proof. exact (conj timerfacts_generated_ok (conj ccfg_generated_ok eq_refl)). Qed.
 
+(* on every path through the function body as it is in the source now (regenerated into Generated.body_census, enumerated by Model/Paths.v) of Connection.doReconnect: a delay timer is started at most once, the requested fire-now is applied after the start and before the wait, the wait precedes the retry loop *)
+Theorem C16_source_delay_paths : doreconnect_paths = true.
+Proof. exact paths_doreconnect. Qed.
+
 Print Assumptions C16_random_delay_in_window.
 Print Assumptions C16_wait_immediate_when_idle.
 Print Assumptions C16_wait_immediate_after_fire_now.
@@ -90,3 +95,4 @@ Print Assumptions C16_current_signal_fires_only_when_due.
 Print Assumptions C16_connection_delay.
 Print Assumptions C16_firenow_lost_refuted.
 Print Assumptions C16_generated_ok.
+Print Assumptions C16_source_delay_paths.
